@@ -225,7 +225,13 @@ fn eval(name: &str, a: &[Value]) -> Value {
             }).collect();
             let refs: Vec<&scrut::outcome::Outcome> = outcomes.iter().collect();
             match scrut::generators::markdown::MarkdownUpdateGenerator::new(&langs).generate_update(&text, &refs) {
-                Ok(u) => json!({"updated": u, "tests": tests.len()}),
+                Ok(u) => {
+                    // parse the updated document again: same commands and expectation lines?
+                    let summary = |ts: &Vec<scrut::testcase::TestCase>| ts.iter().map(|t| json!({"shell_expression": t.shell_expression,
+                        "expectations": t.expectations.iter().map(|e| e.original_string()).collect::<Vec<_>>()})).collect::<Vec<_>>();
+                    let again = match parser.parse(&u) { Ok((_c, t)) => json!({"Ok": summary(&t)}), Err(e) => json!({"Err": format!("{:#}", e)}) };
+                    json!({"updated": u, "tests": tests.len(), "original": summary(&tests), "reparsed": again})
+                }
                 Err(e) => json!({"update_error": format!("{:#}", e), "tests": tests.len()}),
             }
         }
